@@ -650,7 +650,9 @@ impl RMethod for REma {
 		// η covers the subnormal range
 		let local = x.mag().max(self.y.mag());
 		let v = self.y.v + a * (x.v - self.y.v);
-		let step = C_EMA * U * local.max(v.abs()) + ETA;
+		// (zero input into a zero state stays an exactly known zero)
+		let scale = local.max(v.abs());
+		let step = if scale == 0.0 { 0.0 } else { C_EMA * U * scale + ETA };
 		let e = (1.0 - a) * self.y.e + a * x.e + step;
 		self.own = (1.0 - a) * self.own + step;
 		self.y = T::new(v, e);
